@@ -16,7 +16,7 @@ pub trait Configuration {
         ensures r == Self::spec_hash(item@);
 }
 pub trait Database: Send + Sync {}
-pub trait VRFKeyStorage {}
+pub trait VRFKeyStorage: Clone {}
 #[verifier::external_body]
 #[verifier::reject_recursive_types(Db)]
 pub struct StorageManager<Db: Database> { _s: core::marker::PhantomData<Db> }
@@ -30,11 +30,36 @@ pub struct Directory<TC, S: Database, V> {
     pub storage: StorageManager<S>,
     pub vrf: V,
     pub parallelism_config: AzksParallelismConfig,
-    pub cache_lock: VxLock,
+    pub cache_lock: Arc<RwLock<()>>,
     pub tc: core::marker::PhantomData<TC>,
 }
+// model of std::sync::Arc<tokio::sync::RwLock<()>> as used for the cache lock: what matters is WHICH lock it is (clones of a directory
+// must share it, or the poller's exclusive lock on a clone excludes nobody)
 #[verifier::external_body]
-pub struct VxLock { _p: () }
+#[verifier::reject_recursive_types(T)]
+pub struct RwLock<T> { _t: core::marker::PhantomData<T> }
+#[verifier::external_body]
+#[verifier::reject_recursive_types(T)]
+pub struct Arc<T> { _t: core::marker::PhantomData<T> }
+pub uninterp spec fn lock_id(l: Arc<RwLock<()>>) -> int;
+pub uninterp spec fn fresh_lock_id() -> int;
+impl<T> RwLock<T> {
+    #[verifier::external_body]
+    pub fn new(t: T) -> Self { unimplemented!() }
+}
+impl Arc<RwLock<()>> {
+    // a NEW lock: its identity is not that of any lock the caller already holds (uninterpreted: nothing relates it to an existing one)
+    #[verifier::external_body]
+    pub fn new(l: RwLock<()>) -> (r: Self) ensures lock_id(r) == fresh_lock_id() { unimplemented!() }
+    #[verifier::external_body]
+    pub async fn read(&self) -> VxGuard { unimplemented!() }
+    #[verifier::external_body]
+    pub async fn write(&self) -> (g: VxGuard) ensures excl_lock_taken() { unimplemented!() }
+}
+impl Clone for Arc<RwLock<()>> {
+    #[verifier::external_body]
+    fn clone(&self) -> (r: Self) ensures lock_id(r) == lock_id(*self) { unimplemented!() }
+}
 #[verifier::external_body]
 pub struct VxGuard { _p: () }
 // knowledge tokens of ONE poller iteration (loop bodies are verified from the loop invariants only, so nothing learnt in an earlier
@@ -42,12 +67,6 @@ pub struct VxGuard { _p: () }
 pub uninterp spec fn excl_lock_taken() -> bool;
 pub uninterp spec fn cache_flushed<S: Database>(st: &StorageManager<S>) -> bool;
 pub uninterp spec fn reloaded_after_flush<S: Database>(st: &StorageManager<S>) -> bool;
-impl VxLock {
-    #[verifier::external_body]
-    pub async fn read(&self) -> VxGuard { unimplemented!() }
-    #[verifier::external_body]
-    pub async fn write(&self) -> (g: VxGuard) ensures excl_lock_taken() { unimplemented!() }
-}
 // tokio pieces the poller uses (model): sleep, and a channel whose send is the CHANGE SIGNAL - it may be sent only after the flush
 // and the reload (C13: once the signal is out, later requests on this instance are answered from an epoch at least that new)
 pub mod tokio {
@@ -121,17 +140,21 @@ pub async fn vx_vrf_retrieve<V: VRFKeyStorage>(vrf: &V) -> (r: Result<Vec<u8>, V
 // same storage) can complete between two reads of it. Reads of it are therefore nondeterministic here; `epoch_record_read(st, a)` only
 // says "this request obtained the value a from a read of the epoch record". (Everything else a request reads is a function of what it
 // sees - T6 - and node reads are as-of the epoch of the record the request holds.)
+pub uninterp spec fn manager_id<S: Database>(st: &StorageManager<S>) -> int;
+impl<S: Database> Clone for StorageManager<S> {
+    #[verifier::external_body]
+    fn clone(&self) -> (r: Self) ensures manager_id(&r) == manager_id(self) { unimplemented!() }
+}
+pub trait VxClone { }
 pub uninterp spec fn epoch_record_read<S: Database>(storage: &StorageManager<S>, a: Azks) -> bool;
 pub uninterp spec fn user_state<S: Database>(storage: &StorageManager<S>, label: Seq<u8>, flag: ValueStateRetrievalFlag) -> Result<ValueState, StorageError>;
 pub uninterp spec fn mem_proof<S: Database>(azks: Azks, storage: &StorageManager<S>, label: NodeLabel) -> Result<MembershipProof, AkdError>;
 pub uninterp spec fn nonmem_proof<S: Database>(azks: Azks, storage: &StorageManager<S>, label: NodeLabel) -> Result<NonMembershipProof, AkdError>;
 pub uninterp spec fn root_hash_of<S: Database>(azks: Azks, storage: &StorageManager<S>) -> Result<Digest, AkdError>;
-impl<TC: Configuration, S: Database + 'static, V: VRFKeyStorage> Directory<TC, S, V> {
-    #[verifier::external_body]
-    pub(crate) async fn retrieve_azks(&self) -> (r: Result<Azks, AkdError>)
-        ensures r is Ok ==> epoch_record_read(&self.storage, r->Ok_0)
-    { unimplemented!() }
-}
+// reading the epoch record PAST the object cache is reserved for the change poller (it needs to see storage, not the instance's view);
+// request handlers read it through the cache, like the nodes they go on to read (C13 / C14: a cached instance must not take the epoch
+// from storage and the tree from its cache)
+pub uninterp spec fn direct_epoch_read_permitted() -> bool;
 impl vstd::std_specs::convert::FromSpecImpl<StorageError> for AkdError {
     open spec fn obeys_from_spec() -> bool { true }
     open spec fn from_spec(e: StorageError) -> Self { AkdError::Storage(e) }
